@@ -130,8 +130,11 @@ func signedMsgCore(c *an.Check) {
 	sigValidateGates(c)
 }
 
+
 func c01(c *an.Check) {
 	signedMsgCore(c)
+	thoroughCallers(c, "signed-message verification", 0, []string{"peer", "signaling/rpc", "pubsub"}, fnSMExtractAndVerify, fnSMExtractPubKey, cSMEV)
+	thoroughCallers(c, "pubsub message verification", 0, []string{"pubsub"}, cPMEAV)
 	// the claimed sender is decoded exactly (no trailing or missing bytes): shared with C10
 	peerIDDecodeObligations(c)
 }
